@@ -35,14 +35,16 @@ CAUSES = {
     "starting": ["close", "close-during-start"],
     # "close-early-silent": the same, but the peer stays silent (never accepts / never answers the CER)
     "connecting": ["refuse", "close-early", "close-early-silent"],
-    "await-cea": ["eof", "rst", "non-cea", "close-early", "close-early-silent"],
+    # "close-racing-cea": the application's close() and the peer's CEA happen at the same time
+    "await-cea": ["eof", "rst", "non-cea", "close-early", "close-early-silent", "close-racing-cea", "eof-partial"],
     # server role: the peer has connected but not yet sent its CER
     "accepted": ["eof", "rst"],
     # "close-silent": local close, the peer keeps the connection but never answers the DPR
-    "open-idle": ["close", "dpr", "eof", "rst", "close-silent"],
+    # "eof-partial": the peer goes away in the middle of a message (a few bytes of it arrive, then the FIN)
+    "open-idle": ["close", "dpr", "eof", "rst", "close-silent", "eof-partial"],
     "open-inbound": ["close", "dpr", "eof"],
     "open-outbound": ["close", "dpr", "eof", "rst"],
-    "open-consumer": ["close", "dpr", "eof", "rst"],
+    "open-consumer": ["close", "dpr", "eof", "rst", "eof-partial"],
     # an application thread keeps submitting messages while the connection ends
     "open-sender": ["close", "dpr", "eof", "rst"],
     "closing": ["dpa", "eof", "rst"],
@@ -210,6 +212,44 @@ class Termination(explore.Scenario):
                 n.peer.close()
             elif cause == "rst":
                 n.peer.close(reset=True)
+            elif cause == "eof-partial":
+                whole = node.app_request(3) if life != "await-cea" else node.cea(1, 2)
+                n.peer.send(whole[:27])
+                n.peer.wait_for(lambda: not n.peer.conn.inbox, "partial-read", timeout=10.0)
+                n.peer.close()
+            elif cause == "close-racing-cea":
+                got = n.wait_messages(1, timeout=10.0)
+                h = node.header_of(got[0]) if got else {"hbh": 1, "e2e": 2}
+
+                assoc_now = d._association
+
+                def cer_answered():
+                    return not any(m.header.get_command_code() == 257 for m in list(assoc_now.pending_requests.values()))
+
+                def closer2():
+                    import bromelia.exceptions as X
+                    # the application stops the node at the moment the state machine is dealing with the CEA: this
+                    # thread becomes runnable when the CER has found its answer (the state machine thread goes on
+                    # by default; taking it off the CPU there is one deviation)
+                    if not cer_answered():
+                        rt.block("app.wait", "cea-being-handled", pred=cer_answered, timeout=5.0)
+                    try:
+                        d.close()
+                    except BaseException as e:  # noqa
+                        if isinstance(e, shims.sched.Abort):
+                            raise
+                        if type(e).__module__ != X.__name__:
+                            obs["close_raised"] = f"{type(e).__name__}: {e}"
+                ct = T(target=closer2, name="app-closer")
+                ct.start()
+                n.peer.send(node.cea(h["hbh"], h["e2e"]))
+                ct.join()
+                # the peer answers a DPR if one comes
+                if n.peer.wait_for(lambda: any(node.header_of(m)["code"] == 282 for m in node.split_stream(n.peer.received())[0]),
+                                   "dpr-seen", timeout=rt.stall_time + 8.0):
+                    dprs = [m for m in node.split_stream(n.peer.received())[0] if node.header_of(m)["code"] == 282]
+                    hh = node.header_of(dprs[-1])
+                    n.peer.send(node.dpa(hh["hbh"], hh["e2e"]))
             elif cause == "non-cea":
                 n.peer.send(node.dwr(5, 6))
             elif cause == "close":
@@ -364,7 +404,8 @@ def plan(tier):
     deep = {("client", "open-idle", "close"), ("server", "open-consumer", "eof"), ("server", "open-idle", "dpr"),
             ("client", "open-outbound", "close"), ("client", "await-cea", "eof"), ("server", "closing", "eof"),
             ("client", "open-sender", "close"), ("server", "open-sender", "eof"), ("server", "open-outbound", "rst"),
-            ("client", "await-cea", "close-early"), ("server", "accepted", "eof"), ("client", "starting", "close"), ("client", "starting", "close-during-start")}
+            ("client", "await-cea", "close-early"), ("server", "accepted", "eof"), ("client", "starting", "close"), ("client", "starting", "close-during-start"),
+            ("client", "await-cea", "close-racing-cea"), ("server", "open-consumer", "eof-partial")}
     for p in all_cases():
         key = (p["role"], p["life"], p["cause"])
         if tier == "quick":
